@@ -49,7 +49,9 @@ func (f FilterFlag) String() string {
 	}
 
 	var list []string
-	for flag, name := range filterFlagNames {
+	// Use a fixed order, iterating over the map would make the result random.
+	for _, flag := range []FilterFlag{FilterFlagTSync, FilterFlagLog} {
+		name := filterFlagNames[flag]
 		if f&flag != 0 {
 			f ^= flag
 			list = append(list, name)
